@@ -152,6 +152,12 @@ class ndarray:
                 if len(key) != 2:
                     raise IndexError("too many indices")
                 i, j = key
+                if isinstance(i, ndarray) and isinstance(j, ndarray) and i.ndim == 2 and j.ndim == 2:
+                    # open mesh (np.ix_): rows x columns selection
+                    ri = [self._norm(r[0], self._shape[0]) for r in i._d]
+                    cj = [self._norm(c, self._shape[1]) for c in (j._d[0] if j._d else [])]
+                    sub = [[self._d[r][c] for c in cj] for r in ri]
+                    return ndarray(sub, (len(ri), len(cj)), self.dtype)
                 if isinstance(i, slice) or isinstance(j, slice):
                     rows = self._d[i] if isinstance(i, slice) else [self._d[self._norm(i, self._shape[0])]]
                     if isinstance(j, slice):
@@ -261,6 +267,9 @@ class ndarray:
             return am(self._d)
         if axis in (1, -1):
             out = [am(r) for r in self._d]
+            return ndarray(out, (len(out),), int64)
+        if axis == 0:
+            out = [am([r[j] for r in self._d]) for j in range(self._shape[1])]
             return ndarray(out, (len(out),), int64)
         raise OutsideModel("npl.argmax axis")
 
@@ -414,6 +423,13 @@ def stack(arrays, axis=0):
                 raise ValueError("all input arrays must have the same shape")
         return ndarray([[r[i] for r in rows] for i in range(n)], (n, len(rows)), None)
     raise OutsideModel("npl.stack axis")
+
+
+def ix_(rows, cols):
+    """open mesh of two index vectors: (n,1) and (1,m) integer arrays"""
+    r = rows.tolist() if isinstance(rows, ndarray) else list(rows)
+    c = cols.tolist() if isinstance(cols, ndarray) else list(cols)
+    return (ndarray([[x] for x in r], (len(r), 1), int64), ndarray([list(c)], (1, len(c)), int64))
 
 
 def where(cond, a, b):
@@ -618,7 +634,7 @@ def _module():
     m = types.ModuleType("numpy")
     g = globals()
     for name in ("ndarray", "zeros", "array", "asarray", "eye", "stack", "isnan", "mean", "exp", "c_", "arange",
-                 "concatenate", "diff", "isclose", "floor", "ceil", "abs", "swapaxes", "where", "clip",
+                 "concatenate", "diff", "isclose", "floor", "ceil", "abs", "swapaxes", "where", "clip", "ix_",
                  "float32", "float64", "int8", "int32", "int64", "bool_", "newaxis", "nan", "inf"):
         setattr(m, name, g[name])
     m.typing = _real.typing  # annotations only
